@@ -11,6 +11,15 @@ D = "zlib-rs/src/deflate/verif_kani"
 I = "zlib-rs/src/inflate/verif_kani"
 
 
+def DISPATCH_US(main, inner=2, need_bits=6):
+    """standard per-loop bounds for decoder-step harnesses that go through State::dispatch: the decoder's main loop gets
+    `main` iterations, every loop inside the (mostly infeasible) arms `inner`, need_bits enough for 32 bits.  Unwinding
+    assertions stay on, so a bound that is too small for a feasible path fails the harness instead of truncating it."""
+    return [("State::<'_>::dispatch", None, inner),
+            ("State::<'_>::dispatch", ("zlib-rs/src/inflate.rs", "let ret = 'label: loop {"), main),
+            ("BitReader::<'_>::need_bits", None, need_bits)]
+
+
 def h(name, file, path, props, **kw):
     spec = dict(file=file, path=path, props=props)
     spec.update(kw)
@@ -133,10 +142,11 @@ h("ki5b_comment", HDR, HP, ["C20", "C02"], kernel="KI5b", expect_s=40, timeout=9
 h("ki5b_hcrc", HDR, HP, ["C08", "C20", "C03", "C02"], kernel="KI5b", expect_s=15, timeout=600,
   functions=["State::dispatch (mode HCrc, Type)"],
   bounds="any running header CRC, 0..=3 input bytes, wrap in {2,6}, FHCRC set or clear")
-h("ki5a_head", HDR, HP, ["C03", "C13", "C02"], kernel="KI5a", expect_s=120, timeout=1200, weight=2,
-  unwindset=[("State::<'_>::dispatch", ("zlib-rs/src/inflate.rs", "let ret = 'label: loop {"), 4)],
-  functions=["State::dispatch (modes Head, DictId, Dict, Type)"],
-  bounds="0..=6 symbolic bytes, wrap in {1,2,3,5,6,7}, wbits in {0, 8..=15}, flush = Block", assumptions=NOCRC)
+for _n, _tier in [(0, "thorough"), (1, "thorough"), (2, "quick"), (3, "thorough"), (5, "thorough"), (6, "quick")]:
+    h("ki5a_head_n%d" % _n, HDR, HP, ["C03", "C13", "C02"], kernel="KI5a", tier=_tier, expect_s=150, timeout=1500, weight=2, mem_gb=16,
+      unwindset=DISPATCH_US(4),
+      functions=["State::dispatch (modes Head, DictId, Dict, Flags, Type)"],
+      bounds="%d input bytes (concrete count, symbolic values), wrap in {1,2,3,5,6,7}, wbits in {0, 8..=15}, flush = Block" % _n, assumptions=NOCRC)
 h("ki5a_set_dictionary", HDR, HP, ["C13", "C16", "C02"], kernel="KI5a", expect_s=120, timeout=1200, weight=2,
   functions=["inflate::set_dictionary", "adler32::adler32", "Window::extend", "inflate::get_dictionary"],
   bounds="dictionary <= 6 symbolic bytes, W = 4, wrap in {0,1,5}, Dict or non-Dict mode, any demanded id")
@@ -148,11 +158,13 @@ STEP_ASSUME = ["inflate_table stubbed by assume(false) (dynamic blocks outside t
                "inflate_fast_help behind a checked stub: reaching it fails the harness",
                "checked stubs (panic if reached) for callees the harness bounds make unreachable: Writer::copy_match, Writer::extend_from_window, <[u16]>::fill",
                "block-layer / header / trailer harnesses: State::len_and_friends -> contract stub 'suspends at once' (the symbol decoder is KI5d's subject)"]
-h("ki5c_typedo", BLK, BP, ["C03", "C02", "C04"], kernel="KI5c", expect_s=120, timeout=1200, weight=2,
-  unwindset=[("State::<'_>::dispatch", ("zlib-rs/src/inflate.rs", "let ret = 'label: loop {"), 4)],
-  functions=["State::dispatch (modes TypeDo, Stored, Len_, Len, Table, Check, Length, Done)", "State::len_and_friends (entry)"],
-  bounds="0..=7 primed bits + 0..=1 input byte (<= 9 bits in all), any flush mode, last-block flag set or clear",
-  assumptions=STEP_ASSUME)
+for _nb, _ni, _tier in [(0, 0, "thorough"), (1, 0, "thorough"), (2, 0, "quick"), (3, 0, "quick"), (4, 0, "thorough"), (5, 0, "thorough"),
+                        (6, 0, "thorough"), (7, 0, "quick"), (0, 1, "quick"), (1, 1, "thorough")]:
+    h("ki5c_typedo_b%d_i%d" % (_nb, _ni), BLK, BP, ["C03", "C02", "C04"], kernel="KI5c", tier=_tier, expect_s=120, timeout=1200, weight=2, mem_gb=16,
+      unwindset=DISPATCH_US(4),
+      functions=["State::dispatch (modes TypeDo, Stored, Len_, Len, Table, Check, Length, Done)"],
+      bounds="%d bits in the register + %d input byte(s) (concrete counts, symbolic values), any flush mode, last-block flag set or clear" % (_nb, _ni),
+      assumptions=STEP_ASSUME)
 h("ki5c_stored", BLK, BP, ["C03", "C02", "C15", "C04", "C01"], kernel="KI5c", expect_s=60, timeout=900,
   functions=["State::dispatch (modes Stored, CopyBlock, Type, TypeDo, Check, Length, Done)", "Writer::extend", "BitReader::next_byte_boundary"],
   bounds="0..=7 stale bits, 0..=8 input bytes (LEN, NLEN, <= 4 data), output capacity 0..=4 in a canaried array, flush in {NoFlush, Block}, final block",
@@ -174,7 +186,7 @@ h("ki5d_len_step", SYM, SP, ["C03", "C02", "C04"], kernel="KI5d", expect_s=60, t
   bounds="fixed tables, 0..=9 primed bits of any value, no input, output capacity <= 3 with 0..=cap already written",
   assumptions=STEP_ASSUME + ["oracle: RFC 1951 3.2.5/3.2.6 reference decoder in the harness"])
 h("ki5d_dist_step_dispatch", SYM, SP, ["C03", "C02", "C04"], kernel="KI5d", expect_s=120, timeout=1200, weight=2,
-  unwindset=[("State::<'_>::dispatch", ("zlib-rs/src/inflate.rs", "let ret = 'label: loop {"), 5)],
+  unwindset=DISPATCH_US(5),
   functions=["State::dispatch (modes LenExt, Dist, DistExt, Match)", "inffixed_tbl::DISTFIX"],
   bounds="start in LenExt/Dist/DistExt with any carried registers, 0..=23 primed bits, no input, writer full (step ends in Match before any copy)",
   assumptions=STEP_ASSUME)
@@ -291,7 +303,9 @@ h("kb1_back_distance", I + "/kb1_back.rs", "inflate::verif_kani::kb1_back", ["C1
   functions=["inflate::infback::back (modes Type, Len incl. distance decoding and the window copy loop, Done, Bad)", "inffixed_tbl::{LENFIX,DISTFIX}"],
   bounds="windowBits 8 (256-byte window as a typed local), one input slice of 10 bytes: 8 concrete prefix bytes (final fixed block, six literals, "
          "length-3 code) + 2 symbolic bytes = every distance code and extra-bit value; output callback records what it is given",
-  unwindset=[("infback::back", None, 5), ("infback::back", 0, 13), ("kb1_back::out_cb", None, 17), ("kb1_back::kb1_back_distance", None, 10)],
+  unwindset=[("infback::back", None, 3), ("infback::back", 0, 12),
+             ("infback::back", ("zlib-rs/src/inflate/infback.rs", "for _ in 0..copy {"), 5),
+             ("kb1_back::out_cb", None, 17), ("kb1_back::kb1_back_distance", None, 10)],
   assumptions=["inflate_table stubbed by assume(false) (dynamic blocks outside)", "inflate_fast_back behind a checked stub (needs >= 15 input bytes)",
                "concrete prefix: CBMC keeps decoder modes concrete only for fully concrete bytes (DESIGN.md §1)"])
 
@@ -318,8 +332,8 @@ h("kc9_crc_combine_len0_1_2", CC, CCP, ["C09"], kernel="KC9", expect_s=120, time
   bounds="symbolic crc(A), symbolic B of concrete length 0, 1, 2; combine == bitwise CRC of A || B, both forms")
 h("kc9_crc_combine_len3_4", CC, CCP, ["C09"], kernel="KC9", tier="thorough", expect_s=600, timeout=3600, weight=2,
   functions=["crc32_combine", "crc32_combine_gen", "crc32_combine_op"], bounds="symbolic crc(A), symbolic B of concrete length 3 and 4")
-h("kc9_multmodp_identity_linear", CC, CCP, ["C09"], kernel="KC9", expect_s=60, timeout=1200,
-  functions=["multmodp", "crc32_combine_gen"], bounds="every 32-bit b1, b2; operator for len2 = 5")
+h("kc9_multmodp_identity", CC, CCP, ["C09"], kernel="KC9", expect_s=60, timeout=1200,
+  functions=["multmodp"], bounds="every 32-bit b: x^0 is a left and right identity (GF(2)-linearity of the multiplier did not terminate in 1200 s and is not claimed)")
 AD = "zlib-rs/src/adler32/verif_kani.rs"
 ADP = "adler32::verif_kani"
 h("kc9_adler_closed_form_is_rfc", AD, ADP, ["C09"], kernel="KC9", expect_s=60, timeout=1200,
@@ -334,3 +348,32 @@ h("kc9_adler_len_31_32_33", AD, ADP, ["C09"], kernel="KC9", tier="thorough", exp
   functions=["adler32::adler32", "generic::adler32_rust"], bounds="lengths 31, 32, 33, every valid start, symbolic data")
 h("kc9_adler_piecewise_fold_copy", AD, ADP, ["C09", "C08"], kernel="KC9", expect_s=200, timeout=1800, weight=2,
   functions=["adler32::adler32", "adler32::adler32_fold_copy"], bounds="5 symbolic bytes cut at any point, every valid start; result stays a valid Adler-32 value")
+
+# ---------------------------------------------------------------- Engine B (MIR -> SMT-LIB) queries
+ENGINE_B.append({"name": "compress_bound", "props": ["C07"]})
+ENGINE_B.append({"name": "adler32_combine", "props": ["C09"]})
+ENGINE_B.append({"name": "small_integer_kernels", "props": ["C06", "C08"]})
+
+# ---------------------------------------------------------------- copy kernels (C14)
+h("kd10c_pending_clone_to", "zlib-rs/src/deflate/pending/verif_kani.rs", "deflate::pending::verif_kani", ["C14"], kernel="KD10c", expect_s=20, timeout=600,
+  functions=["Pending::clone_to", "Pending::{advance,pending,remaining,capacity}"], bounds="16-byte pending buffer, every (written, drained) position, symbolic contents")
+h("kd10c_symbuf_clone_to", "zlib-rs/src/deflate/sym_buf/verif_kani.rs", "deflate::sym_buf::verif_kani", ["C14"], kernel="KD10c", expect_s=20, timeout=600,
+  functions=["SymBuf::clone_to", "SymBuf::{push_lit,push_dist,iter}"], bounds="lit_bufsize 4, 0..=3 symbolic symbols")
+h("ki8c_window_clone_to", "zlib-rs/src/inflate/window/verif_kani.rs", "inflate::window::verif_kani", ["C14"], kernel="KI8c", expect_s=20, timeout=600,
+  functions=["inflate::Window::clone_to", "Window::extend"], bounds="W = 8, any history from one extend of <= 12 bytes")
+
+h("ki5c_codelens", BLK, BP, ["C03", "C02", "C04"], kernel="KI5c", expect_s=300, timeout=2400, weight=2, mem_gb=16,
+  functions=["State::dispatch (mode CodeLens, Len_, Len)"],
+  bounds="concrete code-length code {0:2,1:2,2:3,16:3,17:3,18:3 bits}, HLIT 257 / HDIST 3, 1..=12 lengths outstanding, 16 symbolic input bits, "
+         "symbolic previous length and end-of-block length; oracle = reference RLE decoder (RFC 1951 3.2.7) in the harness",
+  unwindset=DISPATCH_US(4, inner=10),
+  assumptions=["inflate_table -> stub returning Success (table contents are KI4's subject; the symbol decoder is stubbed to suspend)",
+               "State::len_and_friends -> 'suspends at once'", "checked stubs for Writer::copy_match / extend_from_window"])
+
+# ---------------------------------------------------------------- inflate: KI6 fast loop
+h("ki6_fast_loop_room", I + "/ki6_fast.rs", "inflate::verif_kani::ki6_fast", ["C02"], kernel="KI6", tier="thorough", expect_s=1800, timeout=5400, weight=4, mem_gb=30,
+  functions=["inflate::inflate_fast_help_impl::<NONE> (one 'outer iteration)", "BitReader::refill", "Writer::push", "Writer::copy_match_with_features",
+             "Writer::extend_from_window_with_features", "inffixed_tbl::{LENFIX,DISTFIX}"],
+  bounds="entry condition of the fast loop: 15 symbolic input bytes, output room = INFLATE_FAST_MIN_LEFT + 0..=2 inside a canaried array, fixed tables, window 8 with symbolic have",
+  unwindset=[("Writer", None, 262), ("spec_fill", None, 262), ("inflate_fast_help_impl", None, 3), ("ki6_fast::fast_one_iteration", None, 10)],
+  assumptions=["inflate_table stubbed (fixed tables only)"])
